@@ -52,6 +52,20 @@ def impl_case(case):
         # default_strand only applies to 2-tuples; an explicit strand (0 included) is kept
         ds = tuple((d, tup(Location.from_tuple(t, default_strand=d)), tup(Location.from_tuple(t[:2], default_strand=d)))
                    for d in (0, 1, -1))
+        # equal locations hash equally, however they were obtained (conversions, in-place edits)
+        ref_hash = hash(Location(*case[1]))
+        objs = [back, d1, d2, d3] + ([d4, d5] if bio is not None else [])
+        if a.strand == 0 and 0 <= a.start <= a.end:
+            from Bio.SeqFeature import FeatureLocation
+            objs.append(Location.from_data(FeatureLocation(a.start, a.end)))      # unstranded feature
+        edited = Location(a.start + 1, a.end + 1, 1 if a.strand != 1 else 0)
+        edited.start, edited.end, edited.strand = a.start, a.end, a.strand
+        objs.append(edited)
+        for o in objs:
+            if o == a and hash(o) != ref_hash:
+                raise AssertionError("equal locations with different hashes: %r obtained by conversion/in-place edit" % (tup(o),))
+            if tup(o) != tuple(case[1]):
+                raise AssertionError("conversion changed the location: %r" % (tup(o),))
         return (tuple(t), tup(back), tup(two), tup(d1), tup(d2), tup(d3), tup(d4), tup(d5), d2 is a, ds)
     if kind == "windows":
         r = windows_overlap(case[1], case[2])
